@@ -28,11 +28,12 @@ TECHNIQUE = "relational symbolic execution of the real NASimEnv: environment A o
 needs_reach = True
 EXTRA_STUBS = dyn.EXTRA_STUBS
 GROUP_BY_QUERY = True
-REQUIRED_WITNESSES = ['same_object', 'same_layout', 'success', 'failure']
+REQUIRED_WITNESSES = ['same_object', 'same_layout', 'success', 'failure', 'bench_params']
 STUBS, ASSUMPTIONS = common.STUBS, common.ASSUMPTIONS
 BOUNDS = dict(quick="A: shape [2,1], S=2,O=2,P=1; actions exploit / subnet scan / process scan / escalation on the first host; B variants: same object, same layout other content, other names, other sizes; B's construct / reset / step inserted before each of A's construct / reset / step / decode",
               thorough="adds A shape [1,1,1] and every action kind")
-prefer = common.prefer
+def prefer(r):
+    return common.prefer(r) if getattr(r, 'w', None) is not None and getattr(r, 'A', None) is not None else []
 A_OPS = ('construct', 'state', 'step', 'decode')
 VARIANTS = ('object', 'content', 'names', 'sizes')
 
@@ -51,6 +52,8 @@ def queries(tier, seed=0):
                         continue
                     qs.append(dict(shape=sh.to_json(), kind=kind, name=nm, os=None, target=[1, 0],
                                    b_variant=var, b_pos=pos))
+    for name in ('tiny-gen', 'small-gen'):
+        qs.append(dict(kind='bench_params', name=name, no_reach=True))
     return qs
 
 
@@ -122,7 +125,7 @@ def run_a(src, q, w, A, scripted, before=None):
     pre = scen.symbolic_state(w, env.current_state)
     hook(2)
     stubs.rewind_draws(scripted)
-    o, reward, done, lim, info = env.step(A.obj)
+    o, reward, done, lim, info = env.step(dyn.encode(env, w, A, True))
     out['obs'] = [sx.znum(c) for c in (o.cells() if isinstance(o, npmodel.SArray) else o)]
     out['reward'] = spec.real(sx.znum(reward))
     out['done'] = sx.zbool(done)
@@ -149,9 +152,13 @@ def run_a(src, q, w, A, scripted, before=None):
 
 
 def run(src, q):
-    shape = Shape.from_json(q['shape'])
-    w = scen.build_world(src, shape)
-    A = scen.make_action(w, q['kind'], tuple(q['target']), q.get('name'), q.get('os'))
+    shape = Shape.from_json(q['shape']) if 'shape' in q else None
+    if q['kind'] == 'bench_params':
+        return run_bench(src, q)
+    costs = dyn.symbolic_scan_costs(src)
+    w = scen.build_world(src, shape, scan_costs=costs)
+    sc_cost = costs[q['kind'][:-5]] if q['kind'].endswith('_scan') else None
+    A = scen.make_action(w, q['kind'], tuple(q['target']), q.get('name'), q.get('os'), req_symbolic=False, cost=sc_cost)
     dyn.scenario_actions(w, A)
     r = dyn.Rec()
     r.q, r.w, r.A = q, w, A
@@ -195,7 +202,66 @@ def run(src, q):
     return r
 
 
+def run_bench(src, q):
+    """make_benchmark_scenario with a symbolic seed: building a generated benchmark must not leave
+    anything behind in the module-level parameter dictionaries that a later build depends on"""
+    import copy
+    import nasim.scenarios as m_sc
+    from nasim.scenarios.benchmark import AVAIL_GEN_BENCHMARKS
+    r = dyn.Rec()
+    r.q = q
+    name = q['name']
+    calls = []
+
+    def recorder(*a, **kw):
+        calls.append((a, dict(kw)))
+        return ('scenario', len(calls))
+    saved_fn = m_sc.generate_scenario
+    saved_params = copy.deepcopy(AVAIL_GEN_BENCHMARKS[name])
+    seed = src.int('bench_seed', 0, None)
+    try:
+        m_sc.generate_scenario = recorder
+        with stubs.sut():
+            m_sc.make_benchmark_scenario(name, seed=None)          # alone
+            m_sc.make_benchmark_scenario(name, seed=seed)          # another environment, seeded
+            m_sc.make_benchmark_scenario(name, seed=None)          # the same request as the first
+            m_sc.make_benchmark_scenario(name, seed=seed)
+    finally:
+        m_sc.generate_scenario = saved_fn
+        AVAIL_GEN_BENCHMARKS[name].clear()
+        AVAIL_GEN_BENCHMARKS[name].update(saved_params)
+    r.calls = calls
+    r.seed = seed
+    r.registered = saved_params
+    return r
+
+
+def _kw_equal(a, b):
+    if set(a) != set(b):
+        return z3.BoolVal(False)
+    cs = []
+    for k in a:
+        x, y = a[k], b[k]
+        if x is None or y is None:
+            cs.append(z3.BoolVal(x is None and y is None))
+        elif sx.is_sym(x) or sx.is_sym(y):
+            cs.append(sx.znum(x) == sx.znum(y))
+        else:
+            cs.append(z3.BoolVal(x == y))
+    return z3.And(cs)
+
+
 def obligations(r):
+    if r.q['kind'] == 'bench_params':
+        c = r.calls
+        if len(c) != 4:
+            return [('four_generator_calls', z3.BoolVal(False))]
+        want_unseeded = dict(r.registered, seed=None)
+        want_seeded = dict(r.registered, seed=r.seed)
+        return [('unseeded_build_alone_uses_registered_parameters', _kw_equal(c[0][1], want_unseeded)),
+                ('seeded_build_passes_its_seed', _kw_equal(c[1][1], want_seeded)),
+                ('unseeded_build_after_a_seeded_one_is_the_same_request', _kw_equal(c[2][1], c[0][1])),
+                ('seeded_build_repeats', _kw_equal(c[3][1], c[1][1]))]
     if r.inter is None:
         return [('interleaved_run_raises_like_alone_run', z3.BoolVal(False))]
     a, b = r.alone, r.inter
@@ -219,6 +285,8 @@ def obligations(r):
 
 
 def witnesses(r):
+    if r.q['kind'] == 'bench_params':
+        return ['bench_params']
     out = []
     v = r.q['b_variant']
     out.append(dict(object='same_object', content='same_layout', names='other_names', sizes='other_sizes')[v])
@@ -231,5 +299,7 @@ def witnesses(r):
 
 
 def describe(r):
+    if r.q['kind'] == 'bench_params':
+        return dict(calls=[{k: str(v) for k, v in kw.items() if k in ('seed', 'name')} for _, kw in r.calls])
     return dict(b_variant=r.q['b_variant'], b_inserted_before=A_OPS[r.q['b_pos']],
                 interleaved_exception=repr(r.inter_exc) if r.inter_exc is not None else None)
